@@ -402,3 +402,57 @@ Definition json_float_dom (bits : N) : bool :=
   && (let e := ((bits / 2 ^ 52) mod 2048)%N in
       let a := (bits mod 2 ^ 63)%N in
       (e <? 1075)%N || (4921056587992461136 <=? a)%N).   (* |f| < 2^52  or  |f| >= 1e21 *)
+
+(** JSON against any "kind only" canonical form (MessagePack as well as CBOR) *)
+Lemma canon_js_equiv_by (h : head -> head) :
+  (forall k z, exists k', h (HInt k z) = HInt k' z) ->
+  forall v, json_plain v = true -> value_equiv (canon_js v) (canon_by h v) = true.
+Proof.
+  intros Hh. induction v as [| b | k z | f | s | s | l IH | d IH] using value_ind'; intros Hp; cbn [canon_js canon_by].
+  - reflexivity.
+  - cbn. apply Bool.eqb_reflx.
+  - destruct (Hh k z) as [k' E]. rewrite E. destruct (z <? 0)%Z; cbn; apply Z.eqb_refl.
+  - cbn [json_plain] in Hp. apply negb_true_iff in Hp. rewrite Hp. cbn. apply N.eqb_refl.
+  - cbn. apply bytes_eqb_refl.
+  - discriminate.
+  - cbn [json_plain] in Hp. apply value_equiv_list_map.
+    rewrite forallb_forall in Hp. rewrite Forall_forall in *. intros x Hx. apply IH; auto.
+  - cbn [json_plain] in Hp. apply value_equiv_dict_map.
+    rewrite forallb_forall in Hp. rewrite Forall_forall in *. intros [k x] Hx. apply (IH (k, x) Hx). apply (Hp (k, x) Hx).
+Qed.
+
+Theorem cross_format_all (v : value) :
+  value_equiv (canon_mp v) (canon_cb v) = true
+  /\ (json_plain v = true ->
+      value_equiv (canon_js v) (canon_mp v) = true /\ value_equiv (canon_js v) (canon_cb v) = true).
+Proof.
+  split; [apply cross_format_msgpack_cbor|]. intros Hp. split.
+  - apply canon_js_equiv_by; [|exact Hp]. intros k z. destruct (mp_canon_shape (HInt k z)) as [k' E]. eauto.
+  - apply cross_format_json_cbor. exact Hp.
+Qed.
+
+(** … and at message level: what the three Deserialize return for the
+    serializations of one message are the same message up to numeric kind *)
+Lemma fval_equiv_canon (c1 c2 : value -> value) (v : fval) :
+  (forall x, value_equiv (VList (map c1 x)) (VList (map c2 x)) = true) ->
+  (forall d, value_equiv (VDict (map (fun kv => (fst kv, c1 (snd kv))) d)) (VDict (map (fun kv => (fst kv, c2 (snd kv))) d)) = true) ->
+  fval_equiv (canon_fval_by c1 v) (canon_fval_by c2 v) = true.
+Proof.
+  intros Hl Hd. destruct v as [n | s | [d|] | [l|] | z]; cbn [canon_fval_by fval_equiv fval_norm].
+  - apply Z.eqb_refl.
+  - apply bytes_eqb_refl.
+  - apply Hd.
+  - reflexivity.
+  - apply Hl.
+  - reflexivity.
+  - apply Z.eqb_refl.
+Qed.
+
+Theorem cross_format_msg_mp_cbor (m : msg) : msg_equiv (canon_msg FMsgpack m) (canon_msg FCbor m) = true.
+Proof.
+  unfold msg_equiv, canon_msg, canon_msg_by. cbn [m_struct m_fields]. rewrite String.eqb_refl. cbn [andb].
+  induction (m_fields m) as [|v vs IH]; cbn [map fvals_equiv]; [reflexivity|].
+  rewrite IH, andb_true_r. apply fval_equiv_canon.
+  - intros x. apply value_equiv_list_map. apply Forall_forall. intros y _. apply cross_format_msgpack_cbor.
+  - intros d. apply value_equiv_dict_map. apply Forall_forall. intros y _. apply cross_format_msgpack_cbor.
+Qed.
